@@ -848,6 +848,27 @@ func (t *FnTrans) havocModifies(item string, pre *Env, st *HeapState, reach stri
 			t.heapSet(st, comp, srt, sx("store", arr, s.Sub[0].S, na))
 			return
 		}
+		if id != nil && id.Name == "mapof" && len(n.Args) == 1 {
+			// every entry of one map may change
+			m := pre.eval(n.Args[0])
+			mt, ok := m.T.Underlying().(*types.Map)
+			if !ok || m.K != VScalar {
+				panic(&exprError{"mapof() needs a map"})
+			}
+			comp, srt, ks, ok := t.mapComps(mt)
+			if !ok {
+				panic(&exprError{"mapof(): unsupported key type"})
+			}
+			arr := t.heapGet(st, comp, srt)
+			t.heapSet(st, comp, srt, sx("store", arr, m.S, t.declare(t.fresh("mapof"), arraySort(ks, "Bool"))))
+			base := "M." + typeKey(mt) + ".val"
+			for _, cd := range t.mapValComps(mt) {
+				vs := arraySort("Int", arraySort(ks, cd.sort))
+				va := t.heapGet(st, base+cd.suffix, vs)
+				t.heapSet(st, base+cd.suffix, vs, sx("store", va, m.S, t.declare(t.fresh("mapofv"), arraySort(ks, cd.sort))))
+			}
+			return
+		}
 		if id != nil && id.Name == "ghostat" && len(n.Args) == 3 {
 			o := pre.eval(n.Args[0])
 			if o.K == VConst {
